@@ -49,7 +49,10 @@ def convert_value(value):
     if isinstance(value, str):
         return AnyValue(string_value=value)
     if isinstance(value, int):
-        return AnyValue(int_value=value)
+        if -(2 ** 63) <= value < 2 ** 63:
+            return AnyValue(int_value=value)
+        # does not fit the 64 bit field: send the digits rather than fail the whole request
+        return AnyValue(string_value=str(value))
     if isinstance(value, float):
         return AnyValue(double_value=value)
     if isinstance(value, bytes):
@@ -68,7 +71,8 @@ def __value_as_dict(value):
 
 
 def __value_as_list(value):
-    return ArrayValue(values=[convert_value(val) for val in value])
+    # a None element of a (valid) sequence attribute is sent as a value that is not set
+    return ArrayValue(values=[convert_value(val) if val is not None else AnyValue() for val in value])
 
 
 def convert_resource(resource):
